@@ -13,6 +13,21 @@ CLAIMED = {
             'Seeded search over fault sequences and histories; every tick checks that each stored preconditioner is bit-identical to the previous one or was replaced on a refresh tick by a root whose reported error is finite and below the threshold, that stored preconditioners stay finite, and that unpoisoned leaves get finite updates. Evidence, not proof.',
             'Trusts the reported inverse_pth_root_errors in training_metrics as the value the gate tested; vmap named axis stands in for pmap replicas; sizes are small (dims<=10, <=4 leaves, <=40 ticks).',
             'DESIGN.md 4 C03'),
+    'C04': ('exploration',
+            'deterministic simulation: virtual clock (count leaf) ticked, jumped and rolled back; explicit schedule automaton vs bitwise state diffs per tick',
+            'Seeded search over (s, p or lr-scheduled p_t, S) schedules and op histories (STEP, CLOCK_JUMP up to 2^20, stale-checkpoint CRASH_RESTORE, REJIT) for Distributed Shampoo (jit, simulated replicas, quantized, sharded) and Tearfree Shampoo/Sketchy. Per tick: every counter +1, statistics/preconditioner/diagnostic leaves byte-identical off schedule, refreshed statistics equal the one-step float64 reference, accepted roots satisfy the root oracle against the statistics stored at that tick, and the update comes from the branch (graft momentum vs preconditioned) the clock selects.',
+            'The automaton is written from the docstrings; lr-scheduled intervals are evaluated in float64 with dont-care ticks at rounding boundaries; bounded sizes and horizons.',
+            'DESIGN.md 4 C04'),
+    'C13': ('exploration',
+            'deterministic simulation: D in-process replicas (vmap named axis; real pmap cross-check) vs a one-replica twin, RESCALE and CRASH_RESTORE mid-run',
+            'Seeded search over trees (N statistics, all residues N mod D), D in 2..13 simulated replicas (and real pmap on forced host devices for D<=8), full / int16-quantized / low-rank compressed preconditioners, and sharded mode with different declared device counts. After every tick all replicas are byte-identical and agree with the one-replica twin (statistics, momenta, gate decisions, preconditioners to a conditioning-aware rounding tolerance, updates).',
+            'Equality across D is checked to a tolerance because D=1 and D>1 are different compiled programs; vmap stands in for pmap (cross-checked).',
+            'DESIGN.md 4 C13'),
+    'C14': ('fault_enumeration',
+            'deterministic simulation: crash at every step k of each sampled history, only serialized bytes survive, fresh optimizer object/compile (and fresh interpreter for a subset), bitwise twin comparison',
+            'For every sampled (optimizer family and mode, config, tree, history of T ticks) every crash point k in 0..T is executed: to_bytes at k, drop optimizer object, jit cache and live state, construct a fresh optimizer, from_bytes into its init template, continue to T; every later update and state leaf must be byte-identical to the uninterrupted twin. Families: DS full/quantized(replicas)/compressed/FD/sharded/eager, SM3, Tearfree Shampoo/Sketchy. Exhaustive over crash points per history; histories are sampled.',
+            'Checkpoint = flax msgpack of the state pytree; parameters and the gradient stream are checkpointed by the stub trainer; restored leaves are placed on device before an eager update.',
+            'DESIGN.md 4 C14'),
 }
 
 NOT_YET = {}
